@@ -217,7 +217,7 @@ func headerShape(shape, name string, signerDER, rootDER []byte, rng *rand.Rand) 
 	return h
 }
 
-func crlShape(shape string, good []byte, certDER []byte) []byte {
+func crlShape(shape string, good []byte, certDER []byte, key *ecdsa.PrivateKey) []byte {
 	switch shape {
 	case "ok":
 		return good
